@@ -1,6 +1,6 @@
 #!/venv/bin/python
 """Re-run, for every seeded change, the checks recorded in its meta.json as detecting it (exit 1) against the changed tree
-(scratch copy under /tmp, VERIF_REPO).  usage: selftest/regress_seeds.py [-j N] [seed ids...]   exit 0 iff every one is still detected."""
+(scratch copy under /tmp, VERIF_REPO).  usage: selftest/regress_seeds.py [-j N] [--checks Cxx,Cyy] [seed ids...]   exit 0 iff every one is still detected."""
 import glob
 import json
 import os
@@ -27,6 +27,10 @@ def main():
     if "-j" in args:
         j = int(args[args.index("-j") + 1])
         del args[args.index("-j"): args.index("-j") + 2]
+    only = None
+    if "--checks" in args:
+        only = set(args[args.index("--checks") + 1].split(","))
+        del args[args.index("--checks"): args.index("--checks") + 2]
     jobs = []
     for d in sorted(glob.glob(os.path.join(VERIF, "seeded", "C*"))):
         seed = os.path.basename(d)
@@ -37,7 +41,7 @@ def main():
             continue
         m = json.load(open(mp))
         for check, rc in m["checks_run_against_it"].items():
-            if rc == 1:
+            if rc == 1 and (only is None or check in only):
                 jobs.append((seed, check))
     bad = 0
     with ThreadPoolExecutor(j) as ex:
